@@ -111,6 +111,8 @@ class Engine(CoreMixin, ExprMixin, CallMixin, StmtMixin, BuiltinMixin):
         return False
 
     def concrete_class(self, contract, fi):
+        if contract.inst == "@cls":
+            return fi.cls          # instantiation for class receivers (kinds["self"] == "cls")
         if contract.inst and (fi.cls is not None or contract.inst in self.spec_names):
             return self.spec_names[contract.inst]
         return fi.cls
